@@ -901,6 +901,63 @@ def limits(R, P):
                 "the attribute loop does not visit every split after the name (%s): an element with the maximum number of attributes loses its last one" % det)
 
 
+def round7(R, P):
+    """DECL/every-pair-reported: an attribute token that splits into name and value is reported, whatever its value is (an empty
+    value is a value): the push into the attribute list depends only on the splitting having worked.
+    ONCE/traverse-consumes-its-element: aws_xml_node_traverse leaves without error only through its child loop (which is
+    where the element's closing tag is consumed): a short cut in front of the loop leaves `</a>` to the enclosing traversal.
+    BODY-VIEW/find-exact: aws_byte_cursor_find_exact compares ALL to_find->len bytes of the pattern at the candidate position."""
+    from sa.cfg import natural_loops
+    f = P.fn("s_load_node_decl")
+    if R.require(f is not None, "s_load_node_decl not found"):
+        pushes = [e for e in f.calls("aws_array_list_push_back") if "attributes" in f.show(e.node)]
+        if R.require(len(pushes) >= 1, "s_load_node_decl: the push of an attribute not found"):
+            dom = dominators(f)
+            loops = natural_loops(f)
+            hdrs = set(loops)
+            for e in pushes:
+                extra = []
+                for c_, p_, b_ in RU.guards(f, e, dom):
+                    if b_ in hdrs:
+                        continue
+                    t = RU.call_test(f, c_, p_)
+                    if t and (t[0].get("callee") or "").startswith("aws_byte_cursor_split_on_char"):
+                        continue
+                    txt = f.show(f.d(c_))
+                    if "splits" in txt and ("length" in txt or "count" in txt):
+                        continue
+                    extra.append(txt[:60])
+                R.check(not extra, "DECL", "every-split-pair-is-reported", where(f, e), "the attribute is stored whenever the token split into name and value",
+                        "an attribute is stored only if %s: a pair with an empty value (y=\"\") is dropped and the later attributes move down one position" % extra)
+    g = P.fn("aws_xml_node_traverse")
+    if R.require(g is not None, "aws_xml_node_traverse not found"):
+        dom = dominators(g)
+        loops = natural_loops(g)
+        if R.require(bool(loops), "aws_xml_node_traverse: child loop not found"):
+            outer = max(loops.items(), key=lambda kv: len(kv[1]))[0]
+            for r_ in g.returns():
+                v_ = RU.uncast(g, RU.origin(g, r_.node["a"][0]) or r_.node["a"][0]) if r_.node.get("a") else None
+                if v_ is None or not (v_["k"] == "member" and v_["f"] == "error"):
+                    continue
+                # (the `error:` exit stores a failure code first: not a non-failing return)
+                sets_err = any(el["k"] == "bin" and el["op"] == "=" and g.show(g.d(el["a"][0])).endswith("->error") and g.is_const(RU.uncast(g, el["a"][1])) not in (None, 0) for el in g.blocks[r_.blk].elems)
+                if sets_err:
+                    continue
+                R.check(any(h_ in dom.get(r_.blk, ()) or r_.blk in loops[h_] for h_ in loops), "ONCE", "traverse-leaves-through-its-child-loop:line%d" % r_.node.get("loc", [0])[0], where(g, r_),
+                        "a non-failing return of the traversal has been through the child loop", "aws_xml_node_traverse returns parser->error without having entered its child loop: the element's closing tag is left in the document and ends the enclosing traversal instead (following siblings are lost)")
+    h = P.fn("aws_byte_cursor_find_exact")
+    if R.require(h is not None, "aws_byte_cursor_find_exact not found"):
+        ms = h.calls({"memcmp", "__builtin_memcmp", "aws_array_eq"})
+        okm = len(ms) >= 1
+        for e in ms:
+            if e.node["callee"] == "aws_array_eq":
+                okm = okm and [argstr(h, e.node, i, addr=False) for i in (2, 3)] == ["to_find->ptr", "to_find->len"]
+            else:
+                okm = okm and argstr(h, e.node, 1, addr=False) == "to_find->ptr" and argstr(h, e.node, 2, addr=False) == "to_find->len"
+        R.check(okm, "BODY-VIEW", "find-exact-compares-the-whole-pattern", "aws_byte_cursor_find_exact()", "the candidate is compared with all to_find->len bytes of the pattern",
+                "aws_byte_cursor_find_exact does not compare the whole pattern at the candidate position (%s): `</a>` matches `</ab>`, the body of <a> ends at a descendant's closing tag" % [h.show(e.node)[:70] for e in ms])
+
+
 def analyse(ctx, replace=None, only=None):
     R = ctx.R
     units = [u for u in library_units(ctx.ex.repo) if "external" not in u]
@@ -916,6 +973,7 @@ def analyse(ctx, replace=None, only=None):
     if on("BALANCE"):
         balance(R, P)
     child_loop_exits(R, P)
+    round7(R, P)
     if on("ONCE", "SKIP"):
         once(R, P)
     if on("DECL"):
@@ -933,6 +991,8 @@ def analyse(ctx, replace=None, only=None):
 
 
 MUTANTS = [
+    {"name": "empty-valued-attribute-dropped", "file": FILE, "expect": "DECL", "scope": {"rules": ["DECL"]}, "old": "                aws_array_list_push_back(&node->attributes, &attribute);", "new": "                if (attribute.value.len > 0) {\n                    aws_array_list_push_back(&node->attributes, &attribute);\n                }"},
+    {"name": "find-exact-skips-the-last-pattern-byte", "file": "source/byte_buf.c", "expect": "BODY-VIEW", "scope": {"rules": ["DECL"]}, "old": "        if (!memcmp(working_cur.ptr, to_find->ptr, to_find->len)) {", "new": "        if (!memcmp(working_cur.ptr, to_find->ptr, to_find->len - 1)) {"},
     {"name": "room-guard-refuses-exact-fit", "file": FILE, "expect": "LIMITS", "old": "    if (closing_name_len > node->doc_at_body.len) {", "new": "    if (node->doc_at_body.len <= closing_name_len) {"},
     {"name": "preamble-stops-after-doctype", "file": FILE, "expect": "LIMITS", "old": "            aws_byte_cursor_advance(&parser.doc, advance);\n        } else {\n            break;\n        }", "new": "            aws_byte_cursor_advance(&parser.doc, advance);\n            if (*(start + 1) == '!') {\n                break;\n            }\n        } else {\n            break;\n        }"},
     {"name": "pair-split-at-every-equals", "file": FILE, "expect": "DECL", "old": "aws_byte_cursor_split_on_char_n(&attribute_pair, '=', 1, &att_val_pair_lst)", "new": "aws_byte_cursor_split_on_char(&attribute_pair, '=', &att_val_pair_lst)"},
